@@ -125,17 +125,22 @@ impl<'a, P: for<'p> Protocol<'p>> DemoWriter<'a, P> {
         let new_snap = mem::take(&mut self.builder).finish();
 
         let result = (|| -> Result<(), WriteError> {
-            self.inner.write_tick(is_keyframe, tick)?;
+            // Pack first: a snapshot that doesn't fit has to be refused
+            // before its tick marker is in the demo.
             if is_keyframe {
                 let keys = &mut self.i32_buf;
                 with_packer(&mut self.buf, |p| new_snap.write(keys, p))
                     .map_err(|_| WriteError::TooLargeSnap)?;
-                self.inner.write_snapshot(&self.buf)?;
             } else {
                 self.delta.create(&old_snap, &new_snap);
                 let delta = &self.delta;
                 with_packer(&mut self.buf, |p| delta.write(P::obj_size, p))
                     .map_err(|_| WriteError::TooLargeSnap)?;
+            }
+            self.inner.write_tick(is_keyframe, tick)?;
+            if is_keyframe {
+                self.inner.write_snapshot(&self.buf)?;
+            } else {
                 self.inner.write_snapshot_delta(&self.buf)?;
             }
             Ok(())
